@@ -112,7 +112,7 @@ Proof.
   intros H. induction l as [|i l IH]; [reflexivity|]. cbn [perrs flat_map p0s filter].
   assert (Hi : item_mod i = Some m) by (apply H; left; reflexivity).
   assert (IH' : perrs sc l = perrs sc (p0s m l)) by (apply IH; intros j Hj; apply H; right; exact Hj).
-  unfold perrs in *. destruct i as [| | | | | |m0 who cc| | | |]; cbn [is_p0 perr app]; try exact IH'.
+  unfold perrs in *. destruct i as [| | | | | |m0 who cc| | | | | |]; cbn [is_p0 perr app]; try exact IH'.
   destruct who; cbn [perr app]; [|exact IH'].
   cbn [item_mod] in Hi. injection Hi as ->. rewrite N.eqb_refl. cbn [flat_map perr]. rewrite IH'. reflexivity.
 Qed.
@@ -152,7 +152,7 @@ Proof.
               PInv sc m e0 {| x_w := fst (catch (cfg sc m) m pn (x_w s1)); x_log := x_log s1 |})
     by (intros sp p; apply exec_catch_PInv, H).
   destruct (stage =? 0).
-  - specialize (G (c_tasks (cfg sc m)) (pick_start (cfg sc m) (inc (w_mod (x_w s) m)))).
+  - specialize (G (c_spawn (cfg sc m)) (pick_start (cfg sc m) (inc (w_mod (x_w s) m)))).
     destruct (exec (nmods sc) now m (CbStart stage) _ _ s) as [s1 pn]. destruct (catch (cfg sc m) m pn (x_w s1)) as [w2 e2]. exact G.
   - specialize (G [] []).
     destruct (exec (nmods sc) now m (CbStart stage) _ _ s) as [s1 pn]. destruct (catch (cfg sc m) m pn (x_w s1)) as [w2 e2]. exact G.
@@ -219,8 +219,7 @@ Proof.
   unfold around. set (s := f {| x_w := activate now m w; x_log := [] |}).
   unfold buf_process, shutdown_part. destruct (shut _); cbn [snd]; eexists; split; try reflexivity.
   - apply Forall_app. split.
-    + apply Forall_forall. intros i Hi. unfold cancelled in Hi. apply in_flat_map in Hi. destruct Hi as (n & _ & Hn).
-      destruct (existsb _ _); [destruct Hn as [<-|[]]; reflexivity|destruct Hn].
+    + apply Forall_forall. intros i Hi. destruct (cancelled_in _ _ _ _ Hi) as [(id & ->)|(id & ->)]; reflexivity.
     + constructor; [reflexivity|constructor].
   - constructor.
 Qed.
@@ -283,7 +282,7 @@ Definition PI (sc : script) (w : world) (tr : list erec) : Prop :=
 Lemma own_p0s_other m1 m l : Own m1 l -> m1 <> m -> p0s m l = [].
 Proof.
   intros Ho Hn. unfold p0s. induction l as [|i l IH]; [reflexivity|]. inversion Ho; subst. cbn [filter].
-  rewrite (IH H2). destruct i as [| | | | | |m0 who cc| | | |]; try reflexivity. destruct who; [|reflexivity].
+  rewrite (IH H2). destruct i as [| | | | | |m0 who cc| | | | | |]; try reflexivity. destruct who; [|reflexivity].
   cbn [item_mod] in H1. injection H1 as ->. cbn [is_p0]. apply N.eqb_neq in Hn. rewrite Hn. reflexivity.
 Qed.
 
@@ -331,7 +330,7 @@ Lemma at_sim_start_active k c now m stage s :
   active (w_mod (x_w (fst (at_sim_start k c now m stage s))) m) = true -> active (w_mod (x_w s) m) = true.
 Proof.
   unfold at_sim_start.
-  set (e := if stage =? 0 then exec k now m (CbStart stage) (c_tasks c) (pick_start c (inc (w_mod (x_w s) m))) s
+  set (e := if stage =? 0 then exec k now m (CbStart stage) (c_spawn c) (pick_start c (inc (w_mod (x_w s) m))) s
             else exec k now m (CbStart stage) [] [] s).
   assert (He : active (w_mod (x_w (fst e)) m) = active (w_mod (x_w s) m)) by (unfold e; destruct (stage =? 0); apply exec_active).
   destruct e as [s1 p]. cbn [fst] in He. pose proof (catch_active c m p (x_w s1)) as Hc.
@@ -453,7 +452,7 @@ Proof.
   - set (s2 := {| x_w := w2; x_log := x_log s1 |}).
     pose proof (poll_ready_Keep m (nmods sc) now m s2) as K. pose proof (poll_ready_Fr (nmods sc) now m s2) as HF.
     pose proof (poll_ready_LogExt (nmods sc) now m s2) as (l2 & Hl2 & U2).
-    exists (N.to_nat (tpanics (w_mod (x_w (poll_ready (nmods sc) now m s2)) m))).
+    exists (N.to_nat (tfin (w_mod (x_w (poll_ready (nmods sc) now m s2)) m))).
     cbn [on_w x_w x_log w_err set_err]. rewrite (fr_err _ _ _ HF). cbn [x_w s2]. rewrite pe, <- app_assoc. f_equal. f_equal.
     rewrite Hl2. cbn [x_log s2]. rewrite Hlu, (Hown (lu ++ l2)) by (apply Forall_app; auto).
     unfold Keep in K. rewrite Hl2 in K. cbn [x_log s2] in K. rewrite Hlu in K. rewrite K. reflexivity.
@@ -465,7 +464,7 @@ Lemma end_seq_err sc now : forall ms w,
 Proof.
   assert (Hp : forall l, filter (fun e : bool * N => negb (fst e)) (perrs sc l) = perrs sc l).
   { induction l as [|i l IH]; [reflexivity|]. unfold perrs in *. cbn [flat_map]. rewrite filter_app, IH.
-    destruct i as [| | | | | |m0 who cc| | | |]; try reflexivity. destruct who; [|reflexivity]. cbn [perr].
+    destruct i as [| | | | | |m0 who cc| | | | | |]; try reflexivity. destruct who; [|reflexivity]. cbn [perr].
     destruct cc; reflexivity. }
   assert (Hr : forall m j, filter (fun e : bool * N => negb (fst e)) (repeat (true, m) j) = []).
   { intros m j. induction j as [|j IH]; [reflexivity|exact IH]. }
@@ -485,7 +484,7 @@ Theorem errors_exact sc :
 Proof.
   assert (Hp : forall l, filter (fun e : bool * N => negb (fst e)) (perrs sc l) = perrs sc l).
   { induction l as [|i l IH]; [reflexivity|]. unfold perrs in *. cbn [flat_map]. rewrite filter_app, IH.
-    destruct i as [| | | | | |m0 who cc| | | |]; try reflexivity. destruct who; [|reflexivity]. cbn [perr].
+    destruct i as [| | | | | |m0 who cc| | | | | |]; try reflexivity. destruct who; [|reflexivity]. cbn [perr].
     destruct cc; reflexivity. }
   destruct (run_decomp sc) as (w & tr & HG & [(_ & _ & now & Et & Ee)|(_ & Et & Ee)]); destruct (gen_PI sc w tr HG) as [He _].
   - rewrite Ee, Et, end_seq_err, He, Hp. unfold items. rewrite flat_map_app, perrs_app. reflexivity.
